@@ -41,6 +41,24 @@ CHECKS.update({
         note='Trusted: the transcription of Cargo/semver rules (cross-checked against unittests/cargotests.py tables at start-up).'),
 })
 
+CHECKS.update({
+    'C05': dict(
+        category='model_checking', design_ref='DESIGN.md §4 C05',
+        technique='explicit-state search over the lattice of ideals of the build-edge partial order of generated build.ninja files, each transition executing one real edge (gcc/ar/cp/sh) with only its state\'s outputs present',
+        text='For every generated project (all target-graph shapes up to 3 targets of the projgen grammar, several placements/options) the real '
+             '`meson setup` writes build.ninja; a reference Ninja reader extracts the edge order; every downward-closed set of executed edges is a '
+             'state and from every state every enabled edge is run for real in a build directory holding exactly the configure-time files plus the '
+             'outputs of the state. Each transition must succeed and reproduce the reference digests; two adversarial complete schedules are run too.',
+        note='Trusted: lib/verif/refninja.py as reading of the Ninja manual (ninja is not installed); sequential schedules only; outputs of executed edges are restored from the reference build.'),
+    'C18': dict(
+        category='model_checking', design_ref='DESIGN.md §4 C18',
+        technique='explicit-state BFS over the product of the real TAPParser state and a reference TAP 12/13 consumer over a 27-form line alphabet; unmerged flat sequences through the real TestRunTAP for the verdict clause',
+        text='Every transition feeds one more line to the real parser (prefix replayed on a fresh TAPParser) and compares the emitted events with a '
+             'reference consumer written from the TAP specification; the end-of-stream transition is taken in every state; product states are merged on '
+             '(real parser fields, reference state). All strings of <= 2 printable characters must not raise; whole-test verdicts via TestRunTAP x exit status.',
+        note='Trusted: the reference consumer as transcription of TAP 12/13; corners listed as may-classes are not compared.'),
+})
+
 NOT_YET = {}
 
 
